@@ -177,31 +177,31 @@ NOT_APPLICABLE = {
 # clauses added after the first round (self-validation survivors, seeded changes); appended to the level text
 ADDED = {
     "C01": "Also: area-sum tolerance finer than the overlap test's slack; every fixed rectangle of the netlist becomes a fixed region; cell occupancy by "
-           "tolerance-robust centre containment; the geometry helpers the die calls satisfy the C18 laws. The tolerance primitives (default area tolerance = sqrt(distance tolerance), absolute almost_eq, overlap definition) and 'numbers are carried as given' (no rounding anywhere in the library) hold.",
+           "tolerance-robust centre containment; the geometry helpers the die calls satisfy the C18 laws. The tolerance primitives (default area tolerance = sqrt(distance tolerance), absolute almost_eq, overlap definition) and 'numbers are carried as given' (no rounding anywhere in the library) hold. The fixed / hard flags of a module reach every rectangle the reader builds, in both spellings of the rectangle list (C05 rule): that flag is how the die learns about fixed regions. Records (BoundingBox, RectAlloc ...) hold the values they are constructed with.",
     "C02": "Also: termination of the recursive splitter (base case, levels-1, non-negative level counts at every caller); module area / centre measured as the "
-           "sum over all cells (no cut-off); split helpers and overlap test satisfy the C18 laws. The tolerance primitives and 'numbers are carried as given' hold.",
+           "sum over all cells (no cut-off); split helpers and overlap test satisfy the C18 laws. The tolerance primitives and 'numbers are carried as given' hold. Records (RectAlloc, BoundingBox ...) hold the values they are constructed with (no hook that renormalises ratios or drops entries).",
     "C03": "Also: owner candidates are exactly the fixed modules, against every cell; zero entries off by default and handed through; queries are effect-free and "
-           "unmemoised; area_overlap / area / bounding_box satisfy the C18 laws. The tolerance primitives and 'numbers are carried as given' hold.",
+           "unmemoised; area_overlap / area / bounding_box satisfy the C18 laws. The tolerance primitives and 'numbers are carried as given' hold. Building the initial allocation stores no attribute of a rectangle / module / point (shapes are the ones the netlist describes).",
     "C04": "Also: the net / module / rectangle / section codecs are inverse pairs entry by entry; the YAML emitter keeps insertion order; the reader's trunk "
            "normalisation leaves a normalised list unchanged (ties keep the earlier trunk).",
     "C05": "Also: fixed / hard flags reach every rectangle; valid_identifier accepts exactly the ASCII identifier language (regex literal read class by class); "
-           "exact Point arithmetic; overlap test satisfies the C18 laws. Numbers are carried as given (no rounding in the library, coordinate setters store their argument).",
-    "C06": "Also: pruning only after a valid trunk was found (recognition independent of list order). The tolerance primitives hold (almost_eq is the absolute test, the same everywhere in the plane).",
-    "C07": "Also: the Expr arithmetic that builds the inequalities satisfies the C16 normal-form laws.",
-    "C08": "Also: per-cell constraints are posted unconditionally; the four die-border exclusions are independent tests; the encoding layer satisfies the C07 rules. definecoords builds the grid tables from all cells (blocks, sorted border sets, next/prev links).",
-    "C09": "Also: hard/fixed tables use identity tests (an offset of 0.0 is an offset); branch sides come from the exact find_location (C06 rule). The fixing tables number the branches in the order of the module tuple's side lists; the tolerance primitives hold.",
+           "exact Point arithmetic; overlap test satisfies the C18 laws. Numbers are carried as given (no rounding in the library, coordinate setters store their argument). The wire length is a plain property recomputed on every read (no memo).",
+    "C06": "Also: pruning only after a valid trunk was found (recognition independent of list order). The tolerance primitives hold (almost_eq is the absolute test, the same everywhere in the plane). The reader builds one rectangle for every entry of a module's rectangle list, unconditionally.",
+    "C07": "Also: the Expr arithmetic that builds the inequalities satisfies the C16 normal-form laws. The encoding code computes with integers only (no true division, float(), math / numpy call or arithmetic with a float literal in tools/rect/pseudobool.py).",
+    "C08": "Also: per-cell constraints are posted unconditionally; the four die-border exclusions are independent tests; the encoding layer satisfies the C07 rules. definecoords builds the grid tables from all cells (blocks, sorted border sets, next/prev links). select_box adds a tuple for every cell of the allocation (cells without the module have ratio 0).",
+    "C09": "Also: hard/fixed tables use identity tests (an offset of 0.0 is an offset); branch sides come from the exact find_location (C06 rule). The fixing tables number the branches in the order of the module tuple's side lists; the tolerance primitives hold. smax is exactly (x + y + sqrt((x - y)^2 + 4 tau^2)) / 2 (polynomial identity).",
     "C10": "Also: capacity posted for every cell over all modules including constants; geometry written only for non-rigid cases; the initial-grid helper "
-           "satisfies the C18 tiling laws. Re-centring is a rigid translation (C14 rule for recenter_rectangles); the centre setter only stores; numbers are carried as given.",
+           "satisfies the C18 tiling laws. Re-centring is a rigid translation (C14 rule for recenter_rectangles); the centre setter only stores; numbers are carried as given. The refinement steps never cut the cell of a fixed module, for every threshold (C02 rule for refine / must_be_refined).",
     "C11": "Also: term ownership of the work queue; split / grid helpers hand on the region tag and tile (C18 laws). The tolerance primitives and 'numbers are carried as given' hold.",
-    "C12": "Also: cut sources of griddify; cuttable tests and split helpers satisfy the C18 laws. The tolerance primitives and 'numbers are carried as given' (gather_boundaries does not round) hold.",
-    "C13": "Also: every trial and the final run use the same iteration count; no memo cache / module-level object in the relocation code; exact Point arithmetic. The centre setter of Module only stores the centre; no wrapping decorators in the tool; numbers are carried as given.",
+    "C12": "Also: cut sources of griddify; cuttable tests and split helpers satisfy the C18 laws. The tolerance primitives and 'numbers are carried as given' (gather_boundaries does not round) hold. Records (RectAlloc ...) hold the values they are constructed with (zero entries are not dropped behind the caller's back).",
+    "C13": "Also: every trial and the final run use the same iteration count; no memo cache / module-level object in the relocation code; exact Point arithmetic. The centre setter of Module only stores the centre; no wrapping decorators in the tool; numbers are carried as given. The wire-length term is a plain property recomputed on every read; no wrapping decorator on the library functions the tool reaches.",
     "C14": "Also: graph construction writes only the graph (nets untouched); re-centring moves the rectangles onto the area-weighted centroid and is a no-op for "
            "modules without rectangles. The centre setter of Module only stores the centre; numbers are carried as given.",
-    "C15": "Also: polygon ring closure in the point-in-polygon helper; the converter's output is recognised as an orthogon (C06 rules). The branch rectangles are the maximal runs of the side histograms (run re-opened at every height change); the tolerance primitives hold.",
-    "C16": "Also: term ownership (a result never aliases an operand's term table).",
+    "C15": "Also: polygon ring closure in the point-in-polygon helper; the converter's output is recognised as an orthogon (C06 rules). The branch rectangles are the maximal runs of the side histograms (run re-opened at every height change); the tolerance primitives hold. Interval.intersection is empty exactly when max(lows) > min(highs) (decided on the paths of its normal form).",
+    "C16": "Also: term ownership (a result never aliases an operand's term table). Terms enter an expression only through Expr.__add__: every Expr(c, table) construction hands over the table of an existing expression.",
     "C17": "Also: centre distance through exact, unsigned Point arithmetic (norm = sqrt(x^2+y^2) for every vector, no rounding in + / -). The overlap function is a function of its arguments (no wrapping decorator, no process-wide state in the tool); numbers are carried as given.",
-    "C18": "Also: containment definitions (is_inside / point_inside / touches) as coordinate comparisons. split_rectangles only redistributes what split() returns (C11 rules); the tolerance primitives and 'numbers are carried as given' hold.",
+    "C18": "Also: containment definitions (is_inside / point_inside / touches) as coordinate comparisons. split_rectangles only redistributes what split() returns (C11 rules); the tolerance primitives and 'numbers are carried as given' hold. Records (BoundingBox ...) hold the values they are constructed with (no snapping / rounding hook).",
     "C19": "Also: the text netlist of the normalisation stage keeps every kind (partial evaluation of its flag chain decoded by the constructor); generated nets "
-           "name modules the same generator declares (chain test evaluated at 0,1,2,3,1000; arities agree); the YAML sink keeps order. The FloorSet converter's rectangles come from the run extraction / validity count of StropInstance (C15 rules).",
-    "C20": "Also: memoising decorators and module-level objects count as process-wide state; library code compares with its own tolerance, not a foreign one. The tolerance primitives hold.",
+           "name modules the same generator declares (chain test evaluated at 0,1,2,3,1000; arities agree); the YAML sink keeps order. The FloorSet converter's rectangles come from the run extraction / validity count of StropInstance (C15 rules). The FloorSet converter stores 'hard', 'fixed' and 'terminal' in a module's mapping only under conditions that exclude each other.",
+    "C20": "Also: memoising decorators and module-level objects count as process-wide state; library code compares with its own tolerance, not a foreign one. The tolerance primitives hold. A module-level container written through a local alias or a default argument counts as process-wide state.",
 }
